@@ -4,6 +4,7 @@ import (
 	"context"
 	"fmt"
 	"io"
+	"time"
 
 	netty "github.com/go-netty/go-netty"
 	"github.com/go-netty/go-netty/verifsim/simnet"
@@ -14,6 +15,8 @@ import (
 type Delivery struct {
 	Seq   int64
 	End   int64 // sequence number when the handler returned
+	At    time.Duration
+	EndAt time.Duration
 	Kind  string // active, read, inactive, exception, event, write
 	Task  int
 	Probe string
@@ -44,7 +47,7 @@ type Probe struct {
 
 //go:norace
 func (p *Probe) rec(kind string, msg interface{}, err error) *Delivery {
-	d := &Delivery{Seq: p.env.Sim.NextEv(), Kind: kind, Probe: p.Name, Msg: msg, Err: err, Task: -1}
+	d := &Delivery{Seq: p.env.Sim.NextEv(), At: p.env.Sim.Now(), Kind: kind, Probe: p.Name, Msg: msg, Err: err, Task: -1}
 	if t := simrt.Me(); t != nil {
 		d.Task = t.ID
 	}
@@ -53,7 +56,7 @@ func (p *Probe) rec(kind string, msg interface{}, err error) *Delivery {
 }
 
 //go:norace
-func (p *Probe) end(d *Delivery) { d.End = p.env.Sim.NextEv() }
+func (p *Probe) end(d *Delivery) { d.End, d.EndAt = p.env.Sim.NextEv(), p.env.Sim.Now() }
 
 func (p *Probe) HandleActive(ctx netty.ActiveContext) {
 	d := p.rec("active", nil, nil)
